@@ -45,6 +45,13 @@ func genC17(seed uint64, tier string) *world.Scenario {
 				c.ExtraTemps = append(c.ExtraTemps, ch)
 			}
 		}
+		// two chips with the same platform string (acpi and virtual names carry no address) cannot be
+		// told apart by any pattern; the property speaks of a *named* device, so names are kept distinct
+		for _, o := range sc.Chips {
+			if stage.PlatformOf(&o) == stage.PlatformOf(&c) {
+				c.Bus = 1
+			}
+		}
 		sc.Chips = append(sc.Chips, c)
 	}
 	platforms := make([]string, nchips)
@@ -78,8 +85,14 @@ func genC17(seed uint64, tier string) *world.Scenario {
 	for i := 0; i < ns; i++ {
 		chip := r.Intn(nchips)
 		n := r.Range(1, 7)
-		for containsInt(sc.Chips[chip].ExtraTemps, n) || sensorTaken(sc, chip, n) {
+		guard := 0
+		for (containsInt(sc.Chips[chip].ExtraTemps, n) || sensorTaken(sc, chip, n)) && guard < 14 {
 			n = n%7 + 1
+			guard++
+		}
+		if guard >= 14 {
+			// every temperature input of this chip is an unconfigured one: free the chosen slot
+			sc.Chips[chip].ExtraTemps = removeInt(sc.Chips[chip].ExtraTemps, n)
 		}
 		sc.Sensors = append(sc.Sensors, world.SensorSpec{ID: fmt.Sprintf("s%d", i), Kind: "hwmon", Prog: constTemp(30000 + 1000*i + 7000*chip + 100*n), Chip: chip, TempN: n})
 	}
@@ -421,4 +434,14 @@ func judgeMissing(res *check.Result, sc *world.Scenario, co *childOut, missing s
 	if writes > 0 && co.End != "horizon" {
 		res.Violate("C17", "missing-device-touches-nothing", "missing-device-touches-nothing "+missing, 0, nil, "start-up failed for entry %s, but %d writes to devices had been issued", entry, writes)
 	}
+}
+
+func removeInt(xs []int, v int) []int {
+	out := xs[:0:0]
+	for _, x := range xs {
+		if x != v {
+			out = append(out, x)
+		}
+	}
+	return out
 }
